@@ -291,7 +291,8 @@ Inductive origin :=
 | ORaw.  (* any other string: nothing in it was computed from a secret *)
 
 Record vtrace := mkTrace {
-  t_key : bytes;        (* secret of the validating signer (whole byte string) *)
+  t_key : bytes;        (* secret the validating signer was constructed with (whole byte string) *)
+  t_key_buf : bytes;    (* what the caller's slice holds when the validation runs (the caller may have overwritten it) *)
   t_now : Z;
   t_aud : bytes;        (* payload type the validator expects *)
   t_app : bytes;        (* application of the IAppTokens *)
@@ -323,12 +324,17 @@ Definition out_obs_eqb (o : outcome) (b : obs) : bool :=
 Definition auth_code (o : outcome) : N := match o with Ok _ _ => 0 | Err _ => 1 | Panic => 2 end%N.
 
 (* agrees: the model reproduces every recorded result *)
+(* NewJWTSigner keeps the caller's slice unless it copies it: the secret the signer works with is
+   then whatever the caller's buffer holds at the time of the call *)
+Definition working_key_g (copies : bool) (t : vtrace) : bytes := if copies then t_key t else t_key_buf t.
+Definition working_key := working_key_g jwt_signer_copies_secret.
+
 Definition agrees_v (t : vtrace) : bool :=
-  out_obs_eqb (validate_tok (t_key t) (t_aud t) (t_now t) (t_view t)) (t_tok t)
-  && out_obs_eqb (validate_app (t_key t) (t_aud t) (t_app t) (t_now t) (t_view t)) (t_apptok t)
+  out_obs_eqb (validate_tok (working_key t) (t_aud t) (t_now t) (t_view t)) (t_tok t)
+  && out_obs_eqb (validate_app (working_key t) (t_aud t) (t_app t) (t_now t) (t_view t)) (t_apptok t)
   && match t_auth t with
      | None => true
-     | Some c => (c =? auth_code (validate_app (t_key t) (t_aud t) (t_app t) (t_now t) (t_view t)))%N
+     | Some c => (c =? auth_code (validate_app (working_key t) (t_aud t) (t_app t) (t_now t) (t_view t)))%N
      end
   (* the integer fields of the payload in the claims of an unchanged issued token *)
   && match t_origin t, t_view t with
@@ -339,7 +345,8 @@ Definition agrees_v (t : vtrace) : bool :=
 
 (* satisfies: the property on the observed results and the origin of the string only.
    No call may panic.  A call may succeed only if the string is an unchanged token issued with the
-   validator's secret - the same byte string, of whatever length - (or a header.claims pair
+   validator's secret - the byte string it was constructed with, of whatever length and whatever
+   the caller did to its buffer afterwards - (or a header.claims pair
    HMAC-signed with that secret), for the expected
    payload type, for the validator's application when the validation is application-bound, and
    its lifetime has not elapsed; the generic and decoded payloads of an issued token are the
